@@ -429,12 +429,56 @@ def rule_orient_order(ctx):
     ctx.floor(rid + ".sites", 1)
 
 
+def rule_narrowcast(ctx):
+    """integer samples written to a u8 / u16 output saturate: no truncating cast of an unbounded value"""
+    from .. import intervals as IV
+    rid = "R-SATURATE"
+    ctx.rule(rid, "in the integer output conversions (jxl_oxide::fb, the FrameBuffer sample impls for u8 and u16) every integer-to-integer "
+                  "cast to the output type has an operand whose interval (from the source type, clamp / min / max with constants, "
+                  "arithmetic) lies inside the output type's range: a sample above the maximum saturates instead of wrapping (300 -> 255, "
+                  "not 44).  Float-to-integer `as` casts saturate by definition and are not sites")
+    ox = ctx.prog.crate("jxl_oxide")
+    n = 0
+    for f in ox.fn_list:
+        if f.kind == "Promoted" or "jxl_oxide::fb::" not in f.path:
+            continue
+        if not ("<u8 as" in f.path or "<u16 as" in f.path):
+            continue
+        fi = None
+        for b, blk in enumerate(f.blocks):
+            if blk[2]:
+                continue
+            for st in blk[0]:
+                if st[0] != "=" or st[2][0] != "cast" or st[2][1] != "IntToInt" or st[2][3] not in ("u8", "u16"):
+                    continue
+                p = op_place(st[2][2])
+                sty = f.local_ty(p[0]) if p is not None and len(p) == 1 else None
+                if sty == st[2][3] or sty is None:
+                    continue
+                if fi is None:
+                    fi = IV.FnIntervals(f, {}, ctx.prog)
+                    ctx.seen(f)
+                n += 1
+                v = fi.op(st[2][2])
+                r = IV.ty_range(st[2][3])
+                key = "%s|%s->%s" % (f.path, sty, st[2][3])
+                if v is not None and v.within(r):
+                    ctx.ok(rid, key, "operand in [%d, %d]" % (v.lo, v.hi), nontrivial=True, fn=f)
+                else:
+                    ctx.bad(rid, key + "|wraps", "%s casts an %s that can be %s to %s with a wrapping `as`: samples outside the output range "
+                            "wrap around instead of saturating, so the %s stream disagrees with the float and 16-bit outputs"
+                            % (f.path, sty, "[%d, %d]" % (v.lo, v.hi) if v is not None else "anything", st[2][3], st[2][3]), fn=f, pos=st[3])
+    ctx.count(rid + ".casts", n)
+    ctx.floor(rid + ".casts", 3)
+
+
 def main(pid, tier, repo=None):
     ctx = Ctx(pid, tier, configs=("workspace",), repo=repo)
     rule_orient(ctx)
     rule_chanorder(ctx)
     rule_orient_order(ctx)
-    ctx.not_decided("float->integer rounding and clamping; sample-by-sample equality between interleaved, planar and stream outputs")
+    rule_narrowcast(ctx)
+    ctx.not_decided("float->integer rounding; sample-by-sample equality between interleaved, planar and stream outputs")
     return ctx.finish(
         "The coordinate-map half of the property, for all image sizes and coordinates at once: the three hand-written copies of the "
         "eight orientation maps are evaluated symbolically from MIR into affine forms and compared with the EXIF definition and with "
